@@ -70,6 +70,12 @@ def generate(ck):
             for seq in itertools.product(("simA", "simN", "rf", "interp"), repeat=n):
                 if "simN" in seq and "simA" in seq:
                     descs.append({"cls": cls, "cfg": 0, "seq": list(seq)})
+    # "grid C, other length" instantiated as a grid with ONE time stamp (the time loop never runs)
+    for cls in ("ideal", "single"):
+        for n in range(2, 4):
+            for seq in itertools.product(("simA", "sim1", "rf", "rfd", "interp"), repeat=n):
+                if "sim1" in seq and "simA" in seq:
+                    descs.append({"cls": cls, "cfg": 0, "seq": list(seq)})
     # extension outside the property's alphabet
     ext_ops = ("simS", "simA", "simC", "rf", "interp")
     for n in range(2, L):
@@ -136,6 +142,9 @@ def _apply(obj, op, cfg):
             warnings.simplefilter("ignore")
             if op in ("simA", "simB", "simC"):
                 obj.simulate(_grid(c[op[-1]]).copy())
+                return ("ok", None)
+            if op == "sim1":
+                obj.simulate(np.array([0.25]))
                 return ("ok", None)
             if op == "simN":
                 obj.simulate(_grid(c["A"]) * (1 + 4e-6))
